@@ -16,18 +16,19 @@
      Dev_ContinueAfterUnlock  the loop goes on after the zero key unlocked the level          (K5)
      Dev_NoCheck              --check-session is ignored                                      (S2)
      Dev_KeyLenFromZero       the automatic key length search starts at 0 bytes              (K1/K3)
-     Dev_WriteMismatch        the seed of a mismatching answer is written                     (D1)      *)
+     Dev_WriteMismatch        the seed of a mismatching answer is written                     (D1)
+     Dev_AbortOnNegative      a negative answer to a seed request ends the run with an error  (D5)      *)
 EXTENDS SeedDumpContract
 
 CONSTANTS Cfgs, SeedKinds, KeyKinds, MaxSeed, Lat, Tmo, EcuKeyLen, Interrupts,
           Dev_NoSleepOnError, Dev_SaveDuringDetect, Dev_NoReenter, Dev_CountOnlyPositive,
           Dev_DurationInSeconds, Dev_IgnoreDuration, Dev_SkipKey, Dev_ContinueAfterUnlock,
-          Dev_NoCheck, Dev_KeyLenFromZero, Dev_WriteMismatch
+          Dev_NoCheck, Dev_KeyLenFromZero, Dev_WriteMismatch, Dev_AbortOnNegative
 
 VARIABLES C, pc, now, hist, file, end, sess, det, klen, attempt, cnt, start, nseed, fresh, cur,
-          intAt, keyFailed
+          intAt, keyFailed, verd
 vars == <<C, pc, now, hist, file, end, sess, det, klen, attempt, cnt, start, nseed, fresh, cur,
-          intAt, keyFailed>>
+          intAt, keyFailed, verd>>
 
 \* k: the environment's choice (read by the spec -> code replay only; the contract does not look at it)
 Ev(t, ta, q, a, has, k) == [t |-> t, ta |-> ta, s |-> sess, q |-> q, a |-> a, has |-> has, k |-> k]
@@ -41,7 +42,7 @@ Init ==
   /\ det = (C.zk # 0)
   /\ klen = IF C.zk > 0 THEN C.zk ELSE IF C.zk = 0 THEN (IF Dev_KeyLenFromZero THEN 0 ELSE 1) ELSE 0
   /\ attempt = FALSE /\ cnt = 0 /\ start = 0 /\ nseed = 0 /\ fresh = 0 /\ cur = <<>>
-  /\ intAt = -1 /\ keyFailed = FALSE
+  /\ intAt = -1 /\ keyFailed = FALSE /\ verd = "ok"
 
 SetSession ==
   /\ pc = "SetSession"
@@ -132,6 +133,7 @@ Seed ==
           /\ CASE pos -> pc' = "Write" /\ UNCHANGED end
                [] k = "mis" -> IF Dev_WriteMismatch THEN pc' = "Write" /\ UNCHANGED end
                                                      ELSE pc' = "Final" /\ end' = "exit"
+               [] k = "neg" /\ Dev_AbortOnNegative -> pc' = "Final" /\ end' = "exit"
                [] OTHER -> pc' = AfterFailure /\ UNCHANGED end
   /\ UNCHANGED <<C, file, det, klen, start, intAt, keyFailed>>
 
@@ -184,41 +186,60 @@ Interrupt ==
   /\ pc' = "Final" /\ end' = "cancel" /\ intAt' = now
   /\ UNCHANGED <<C, now, hist, file, sess, det, klen, attempt, cnt, start, nseed, fresh, cur, keyFailed>>
 
-Next == SetSession \/ LoopHead \/ MaybeReset \/ Wait \/ ReSession \/ Check \/ Recover \/ Seed \/ Write \/ Key
-        \/ Sleep \/ Leave \/ Interrupt
-Spec == Init /\ [][Next]_vars
-
-\* ---------------------------------------------------------------- properties
+\* the contract's verdict on (hist, file, end) so far; `verd` caches it (evaluated once per transition)
 CI == [C EXCEPT !.int = intAt]
 V == LET a == Acc(CI, hist) IN
      IF pc = "Final" THEN Final(CI, a, file, end, now) ELSE IF a.bad = "" THEN "ok" ELSE a.bad
+
+Move == SetSession \/ LoopHead \/ MaybeReset \/ Wait \/ ReSession \/ Check \/ Recover
+        \/ Seed \/ Write \/ Key \/ Sleep \/ Leave \/ Interrupt
+Cache == verd' = V'
+DoSetSession == SetSession /\ Cache
+DoLoopHead == LoopHead /\ Cache
+DoMaybeReset == MaybeReset /\ Cache
+DoWait == Wait /\ Cache
+DoReSession == ReSession /\ Cache
+DoCheck == Check /\ Cache
+DoRecover == Recover /\ Cache
+DoSeed == Seed /\ Cache
+DoWrite == Write /\ Cache
+DoKey == Key /\ Cache
+DoSleep == Sleep /\ Cache
+DoLeave == Leave /\ Cache
+DoInterrupt == Interrupt /\ Cache
+Next == DoSetSession \/ DoLoopHead \/ DoMaybeReset \/ DoWait \/ DoReSession \/ DoCheck \/ DoRecover
+        \/ DoSeed \/ DoWrite \/ DoKey \/ DoSleep \/ DoLeave \/ DoInterrupt
+Spec == Init /\ [][Next]_vars
+
+\* ---------------------------------------------------------------- properties
 
 TypeOK == /\ pc \in {"SetSession", "Head", "MaybeReset", "Wait", "ReSession", "Check", "Recover", "Seed",
                      "Write", "Key", "Sleep", "Leave", "Final"}
           /\ end \in {"run", "done", "exit", "exc", "cancel"}
           /\ (pc = "Final") = (end # "run")
           /\ nseed <= MaxSeed /\ cnt >= 0 /\ klen >= 0
-D1_File     == V \notin {"D1/seed-saved-during-key-length-detection", "D1/received-seed-missing-from-file",
+D1_File     == verd \notin {"D1/seed-saved-during-key-length-detection", "D1/received-seed-missing-from-file",
                          "D1/file-holds-bytes-that-are-no-received-seed", "D1/file-differs-from-received-seeds"}
-D2_Request  == V # "D2/seed-request-does-not-carry-configured-level-and-data-record"
-S1_Entered  == V # "S1/seed-requested-before-configured-session-was-entered"
-S2_Checked  == V \notin {"S2/session-not-checked-before-seed-request",
+D2_Request  == verd # "D2/seed-request-does-not-carry-configured-level-and-data-record"
+S1_Entered  == verd # "S1/seed-requested-before-configured-session-was-entered"
+S2_Checked  == verd \notin {"S2/session-not-checked-before-seed-request",
                          "S2/seed-requested-although-session-read-reported-another-session"}
-K_ZeroKey   == V \notin {"K0/key-sent-without-send-zero-key", "K1/key-is-not-an-all-zero-key-for-the-configured-level",
+K_ZeroKey   == verd \notin {"K0/key-sent-without-send-zero-key", "K1/key-is-not-an-all-zero-key-for-the-configured-level",
                          "K2/key-length-differs-from-configured-length", "K3/key-length-search-not-1-up-to-n"}
-K4_AfterSeed == V # "K4/no-zero-key-after-seed"
-K5_Unlock   == V # "K5/security-access-request-after-unlock"
-K6_Exhaust  == V # "K6/seed-requests-continue-after-key-length-search-exhausted"
-R0_NoReset  == V # "R0/ecu-reset-without-reset-option"
-R1_EveryNth == V \notin {"R1/reset-not-after-every-nth-seed-request", "R1/more-than-n-seed-requests-without-reset"}
-R2_WhenNeeded == V \notin {"R2/no-reset-after-negative-seed-response", "R2/reset-although-every-seed-request-succeeded"}
-R3_Reenter  == V # "R3/session-not-re-entered-after-reset"
-R4_Alive    == V # "R4/seed-requested-although-ecu-did-not-come-back-after-reset"
-P1_Sleep    == V \notin {"P1/no-sleep-between-seed-requests-after-received-seed",
+K4_AfterSeed == verd # "K4/no-zero-key-after-seed"
+K5_Unlock   == verd # "K5/security-access-request-after-unlock"
+K6_Exhaust  == verd # "K6/seed-requests-continue-after-key-length-search-exhausted"
+R0_NoReset  == verd # "R0/ecu-reset-without-reset-option"
+R1_EveryNth == verd \notin {"R1/reset-not-after-every-nth-seed-request", "R1/more-than-n-seed-requests-without-reset"}
+R2_WhenNeeded == verd \notin {"R2/no-reset-after-negative-seed-response", "R2/reset-although-every-seed-request-succeeded"}
+R3_Reenter  == verd # "R3/session-not-re-entered-after-reset"
+R4_Alive    == verd # "R4/seed-requested-although-ecu-did-not-come-back-after-reset"
+P1_Sleep    == verd \notin {"P1/no-sleep-between-seed-requests-after-received-seed",
                          "P1/no-sleep-between-seed-requests-after-failed-request"}
-D5_Duration == V \notin {"D5/seed-requested-after-duration", "D5/infinite-run-ended-by-itself",
-                         "D5/run-ended-before-duration"}
-VerdictOk   == V = "ok"
+D5_Duration == verd \notin {"D5/seed-requested-after-duration", "D5/infinite-run-ended-by-itself",
+                         "D5/run-ended-before-duration", "D5/run-aborted-although-ecu-gave-no-reason"}
+VerdictOk   == verd = "ok"
 \* no dead end before the run has ended (instead of a liveness property)
-Progress    == pc # "Final" => ENABLED Next
+Progress    == pc # "Final" => ENABLED Move
+CacheOk     == verd = V
 =============================================================================
